@@ -89,6 +89,14 @@ type Scenario struct {
 	// CLIPick selects the leaf and the depth of the partial subscription the
 	// CLI forms are compared on.
 	CLIPick int `json:"cli_pick,omitempty"`
+	// Bulk: every session ends with a long run of new leaves below one container.
+	Bulk bool `json:"bulk,omitempty"`
+	// ClientDelayNs: the clients subscribe this long after the collector started
+	// (so that they arrive in the middle of a paced stream).
+	ClientDelayNs int64 `json:"client_delay_ns,omitempty"`
+	// BulkN: length of the list; a scripted (raw) target holds it back until the
+	// client is about to subscribe and then sends it back to back.
+	BulkN int `json:"bulk_n,omitempty"`
 }
 
 type H struct{}
@@ -250,6 +258,32 @@ func (H) Generate(rng *simrt.Rand, prop, tier string) (any, simrt.Config) {
 		}
 	}
 	sc.CLIPick = rng.Intn(1 << 20)
+	if prop != "C12" && rng.Chance(0.2) {
+		// a target that is in the middle of announcing a large list while the
+		// client subscribes: many new leaves below one container, one per
+		// notification, spread over every session
+		n0 := 20 + rng.Intn(40)
+		for i := range sc.Targets {
+			n := n0
+			for si := range sc.Targets[i].Sessions {
+				ss := sc.Targets[i].Sessions[si]
+				ts := int64(5000)
+				if len(ss) > 0 {
+					ts = ss[len(ss)-1].TS
+				}
+				var bulk []*gen.Noti
+				for k := 0; k < n; k++ {
+					ts++
+					bulk = append(bulk, &gen.Noti{TS: ts, Prefix: []gen.Elem{{N: "bulk"}},
+						Ups: []gen.Upd{{Path: []gen.Elem{{N: "e", K: map[string]string{"k": fmt.Sprint(k)}}, {N: "v"}}, Val: gen.Val{Kind: "int", I: int64(k)}}}})
+				}
+				sc.Targets[i].Sessions[si] = append(ss, bulk...)
+			}
+		}
+		sc.Bulk = true
+		sc.ClientDelayNs = int64(time.Duration(1+rng.Intn(3000)) * time.Millisecond)
+		sc.BulkN = n0
+	}
 	return sc, cfg
 }
 
@@ -355,6 +389,9 @@ type rawTarget struct {
 	srv   *simgrpc.Server
 	lis   simnet.Listener
 	resps []*gpb.SubscribeResponse
+	// gateAt >= 0: before sending response #gateAt the target waits until gate reports true
+	gateAt int
+	gate   func() bool
 }
 
 func newRawTarget(port int, resps []*gpb.SubscribeResponse) (*rawTarget, error) {
@@ -378,7 +415,12 @@ func (r *rawTarget) Subscribe(stream gpb.GNMI_SubscribeServer) error {
 	if _, err := stream.Recv(); err != nil {
 		return err
 	}
-	for _, m := range r.resps {
+	for i, m := range r.resps {
+		if r.gate != nil && i == r.gateAt {
+			for k := 0; k < 100000 && !r.gate(); k++ {
+				simrt.Sleep(time.Millisecond)
+			}
+		}
 		if err := stream.Send(m); err != nil {
 			return err
 		}
@@ -533,6 +575,7 @@ func (H) Execute(x *common.Exec, s any) {
 	bj := gen.NewBuilder() // used by the judging code only
 
 	// ---- targets: the repository's fake agent in fixed mode
+	var arriving atomic.Bool // set when the first client is about to subscribe
 	agents := make([]interface{ Close() }, len(sc.Targets))
 	session := make([]int, len(sc.Targets))
 	startAgent := func(i int) error {
@@ -541,6 +584,9 @@ func (H) Execute(x *common.Exec, s any) {
 			r, err := newRawTarget(agentPort(i, 0), responses(b, t.Sessions[session[i]]))
 			if err != nil {
 				return err
+			}
+			if sc.Bulk && session[i] == 0 {
+				r.gateAt, r.gate = len(t.Sessions[0])-sc.BulkN, func() bool { return arriving.Load() }
 			}
 			agents[i] = r
 			return nil
@@ -637,6 +683,10 @@ func (H) Execute(x *common.Exec, s any) {
 					}
 					return nil
 				}}
+			if sc.ClientDelayNs > 0 {
+				simrt.Sleep(time.Duration(sc.ClientDelayNs))
+			}
+			arriving.Store(true)
 			// the collector needs a moment to come up; a reconnecting client copes with "no such target" while it starts
 			rc := client.Reconnect(clients[i], nil, nil)
 			subErr[i] = rc.Subscribe(ctx, q, gclient.Type)
@@ -692,6 +742,9 @@ func (H) Execute(x *common.Exec, s any) {
 	}
 	if sc.Hostile {
 		x.Fault("hostile-target-stream")
+	}
+	if sc.Bulk {
+		x.Fault("client-subscribes-while-the-target-announces-a-long-list")
 	}
 	if collectorDone || collectorErr != nil {
 		x.Violate("C01/collector-exited", "the collector stopped: %v", collectorErr)
